@@ -166,6 +166,40 @@ def leaf_variants(x):
     return out
 
 
+CAP_SIZES = (0, 1, 2, 3, 5, 6, 7, 8, 9, 12, 13, 14, 16, 17, 24, 25, 26, 27, 32, 33, 34, 35, 47, 48, 49, 63, 64, 65, 72, 73, 96, 97,
+             127, 128, 129, 130, 192, 256, 257, 283, 284, 296, 300, 600, 70000)
+
+
+def leaf_sizes(x, sizes=CAP_SIZES):
+    """well-formed DER re-serialisations of x in which ONE primitive leaf gets a value of n printable octets
+    (BIT STRING: 00 + n octets), n running over and far beyond the capacity of every destination field;
+    everything before that leaf stays well-formed"""
+    import copy
+    tree = parse_tree(x, 0, len(x))
+    leaves = []
+
+    def walk(nodes, path):
+        for i, n in enumerate(nodes):
+            if n[1] is None:
+                leaves.append(path + [i])
+            else:
+                walk(n[1], path + [i])
+    walk(tree, [])
+    out = []
+    for path in leaves:
+        for sz in sizes:
+            t = copy.deepcopy(tree)
+            nodes = t
+            for i in path[:-1]:
+                nodes = nodes[i][1]
+            n = nodes[path[-1]]
+            n[2] = (b"\x00" if bytes(n[0]) == b"\x03" else b"") + b"A" * sz
+            y = serialize(t)
+            if y != x:
+                out.append(y)
+    return out
+
+
 # ------------------------------------------------------------------ generation
 def mutants(x, rng, stride=1):
     seen, out = {bytes(x)}, []
@@ -199,12 +233,21 @@ def mutants(x, rng, stride=1):
 
 
 def first(ctx, exe, ops):
-    res, err, rc = ctx.run_lines(exe, ops)
-    if rc != 0 or len(res) != len(ops):
-        k = min(len(res), len(ops) - 1)
+    """outputs of the ops; an op the harness dies on (sanitizer report, abort) gets `CRASH(...)` and the run goes
+    on behind it (at most 6 times, then the list is cut there), so one overrun does not hide the other checks"""
+    res, done, todo = [], [], list(ops)
+    for attempt in range(7):
+        r, err, rc = ctx.run_lines(exe, todo)
+        if rc == 0 and len(r) == len(todo):
+            return res + r, done + todo
+        k = min(len(r), len(todo) - 1)
         summ = " | ".join(l for l in err.split("\n") if "ERROR" in l or "SUMMARY" in l)[:400]
-        return res[:k] + ["CRASH(rc=%d): %s" % (rc, summ)], ops[:k + 1]
-    return res, ops
+        res += r[:k] + ["CRASH(rc=%d): %s" % (rc, summ)]
+        done += todo[:k + 1]
+        todo = todo[k + 1:]
+        if not todo:
+            break
+    return res, done
 
 
 def build_ops(ctx, exe):
@@ -275,6 +318,7 @@ def build_ops(ctx, exe):
         ops += [pre + hx(y) for y in ms]
         if d in ("pkdec", "shdec", "eddec", "bpdec", "cvcdec") and len(x) < 1000:
             ops += [pre + hx(y) for y in leaf_variants(x)]
+            ops += [pre + hx(y) for y in leaf_sizes(x)]
         if d == "smcu":
             # every combination of Lc* form and Le* form around the same protected body (these octets are
             # not covered by the MAC)
@@ -296,6 +340,11 @@ def build_ops(ctx, exe):
             ops.append("cvcbody " + hx(body))
             ops += ["cvcbody " + hx(y) for y in mutants(body, rng, 2)]
             ops += ["cvcbody " + hx(y) for y in leaf_variants(body)]
+            # the destination structure after the decode (failed or not): field capacities
+            ops.append("cvcimg " + hx(body))
+            ops.append("cvcuimg " + hx(x))
+            ops += ["cvcimg " + hx(y) for y in mutants(body, rng, 3) + leaf_variants(body) + leaf_sizes(body)]
+            ops += ["cvcuimg " + hx(y) for y in mutants(x, rng, 3) + leaf_variants(x) + leaf_sizes(x)]
     # CSR (no encoder in the library: bounds + well-formedness outside the opaque fields)
     ops.append("csrdec " + hx(CSR))
     ops += ["csrdec " + hx(y) for y in mutants(CSR, rng)]
@@ -331,7 +380,7 @@ def judge(op, out):
         return [], ["sanitizer/abort: " + out[:400]]
     if "mismatch" in out:
         return [], ["probe call and real call disagree: " + out]
-    if out.startswith("err") or out in ("invalid", "bad-op") or out.startswith("fmt-ok"):
+    if (out.startswith("err") or out in ("invalid", "bad-op") or out.startswith("fmt-ok")) and k not in ("cvcimg", "cvcuimg"):
         return [], []
     try:
         if k in ("pkdec", "shdec"):
@@ -383,6 +432,19 @@ def judge(op, out):
                 fails.append("decoded authority/holder do not fit char[13] with 8..12 characters (lengths %d, %d)" % (len(unhx(o[0])), len(unhx(o[1]))))
             if len(unhx(o[6])) not in (48, 64, 96, 128):
                 fails.append("decoded public key length %d" % len(unhx(o[6])))
+        elif k in ("cvcimg", "cvcuimg"):
+            A, H, PK, FR, UN, EID, ESG, SG = (unhx(o[i]) for i in (1, 2, 3, 5, 6, 7, 8, 9))
+            pkl, sgl = int(o[4]), int(o[10])
+            for nm, v in (("authority", A), ("holder", H)):
+                z = v.find(b"\x00")
+                if len(v) != 13 or z < 0 or v[z:].strip(b"\x00"):
+                    fails.append("%s[13] holds no terminated string after the decode (%s): a write beyond the field" % (nm, hx(v)))
+                elif z > 12 or (z and not (8 <= z <= 12)):
+                    fails.append("%s[13] holds a string of %d characters" % (nm, z))
+            if pkl not in (0, 48, 64, 96, 128) or PK[pkl:].strip(b"\x00"):
+                fails.append("pubkey[128] / pubkey_len = %d inconsistent after the decode" % pkl)
+            if sgl not in (0, 34, 48, 72, 96) or SG[sgl:].strip(b"\x00"):
+                fails.append("sig[96] / sig_len = %d inconsistent after the decode" % sgl)
         elif k == "smcu":
             second.append(("smcw %s %s" % (w[1], out), w[2], "re-wrap of the accepted protected command"))
         elif k == "smru":
@@ -456,8 +518,13 @@ def run(ctx):
             elif g != exp:
                 bad.append((op, "%s fails: `%s` -> `%s`, accepted `%s`" % (what, s_op[:200], g[:300], exp[:300])))
     # correspondence with the Lean models of the bpki codecs (Bee2V/C08/Model3.lean)
-    modelled = ("pkdec", "shdec", "eddec", "csrdec", "pkenc", "shenc", "edenc", "bpdec", "bpenc")
+    modelled = ("pkdec", "shdec", "eddec", "csrdec", "pkenc", "shenc", "edenc", "bpdec", "bpenc", "cvcimg", "cvcuimg")
     mops = [(o, r) for o, r in list(zip(enc_ops, enc_out)) + list(zip(ops, res)) if o.split(" ")[0] in modelled]
+    # the list-based Lean driver is quadratic in the input length: of the inputs with a 3-octet DER length
+    # (>= 65536 octets) only a few go through the model (all of them go through the implementation-side oracle)
+    huge = [i for i, (o, _) in enumerate(mops) if len(o) > 60000]
+    keep = set(huge[::max(1, len(huge) // (4 if ctx.tier == "quick" else 24))][:(4 if ctx.tier == "quick" else 24)])
+    mops = [m for i, m in enumerate(mops) if len(m[0]) <= 60000 or i in keep]
     mism = []
     if mops and os.path.exists(ctx.driver()):
         lres, lerr, lrc = ctx.run_lines(ctx.driver(), [o for o, _ in mops])
